@@ -3,6 +3,7 @@ package store
 import (
 	"bufio"
 	"fmt"
+	"math"
 	"os"
 	"path/filepath"
 	"regexp"
@@ -43,6 +44,7 @@ func (i *Ignore) load(rootGoitPath string) error {
 	defer f.Close()
 
 	scanner := bufio.NewScanner(f)
+	scanner.Buffer(nil, math.MaxInt)
 	for scanner.Scan() {
 		text := scanner.Text()
 		var replacedText string
